@@ -44,7 +44,10 @@ type c20Plan struct {
 	Prior    bool  `json:"prior"`              // the original machines completed another round before the one that is re-initialised
 	Restart  bool  `json:"restart,omitempty"`  // the re-initialised airgapped machines are restarted (reopen + documented log replay) before they are asked to sign
 	DupInit  bool  `json:"dup_init,omitempty"` // the board re-delivers the round's opening proposal once more after the ceremony has begun (live nodes refuse the copy)
-	Aborted  int   `json:"aborted,omitempty"`  // the dump begins with an earlier attempt of the same participants that was aborted: 1 = an unreadable commitment (every machine reports a deals-step error), 2 = an undecryptable deal (its recipient reports a responses-step error)
+	// Old014 (with Adapt014): bit i set = only participant i still ran 0.1.4 in the original ceremony (its deals carry no
+	// self-confirmation, its key announcement no polynomial); 0 = everybody did
+	Old014  int `json:"old_014,omitempty"`
+	Aborted int `json:"aborted,omitempty"` // the dump begins with an earlier attempt of the same participants that was aborted: 1 = an unreadable commitment (every machine reports a deals-step error), 2 = an undecryptable deal (its recipient reports a responses-step error)
 }
 
 func c20Gen(rt *rapid.T) c20Plan {
@@ -53,7 +56,7 @@ func c20Gen(rt *rapid.T) c20Plan {
 		Batches: rapid.IntRange(0, 2).Draw(rt, "batches"), Junk: rapid.IntRange(0, 3).Draw(rt, "junk"),
 		Adapt014: rapid.Bool().Draw(rt, "adapt"), Proposer: rapid.IntRange(0, nt[0]-1).Draw(rt, "proposer"), Prior: rapid.IntRange(0, 2).Draw(rt, "prior") == 0, CLI: rapid.IntRange(0, 3).Draw(rt, "cli") == 0,
 		DupInit: rapid.IntRange(0, 3).Draw(rt, "dupInit") == 0, Restart: rapid.Bool().Draw(rt, "restartAfter"),
-		Aborted: rapid.SampledFrom([]int{0, 0, 0, 1, 2}).Draw(rt, "aborted")}
+		Aborted: rapid.SampledFrom([]int{0, 0, 0, 1, 2}).Draw(rt, "aborted"), Old014: rapid.SampledFrom([]int{0, 0, 1, 2, 3, 4, 5, 6}).Draw(rt, "old014")}
 }
 
 // c20AbortedAttempt runs, on the original board, a key generation of the same participants that one faulty airgapped
@@ -131,10 +134,16 @@ type c20Orig struct {
 }
 
 // to014 strips what a v0.1.4 log does not contain.
-func to014(msgs []storage.Message) []storage.Message {
+func to014(msgs []storage.Message, old func(sender string) bool) []storage.Message {
 	var out []storage.Message
 	var off uint64
 	for _, m := range msgs {
+		if !old(m.SenderAddr) {
+			m.Offset = off
+			off++
+			out = append(out, m)
+			continue
+		}
 		if m.Event == "event_dkg_deal_confirm_received" && m.SenderAddr == m.RecipientAddr {
 			continue
 		}
@@ -320,7 +329,18 @@ func c20Reinit(p c20Plan, o c20Orig, cfg world.Config, log []storage.Message) (o
 	}
 	src := log
 	if p.Adapt014 && !p.Recorded {
-		src = to014(log)
+		mask := p.Old014 % (1 << uint(p.N))
+		src = to014(log, func(sender string) bool {
+			if mask == 0 {
+				return true
+			}
+			for i, nm := range w.Names {
+				if nm == sender {
+					return mask&(1<<uint(i)) != 0
+				}
+			}
+			return false
+		})
 	}
 	re, err := types.GenerateReDKGMessage(src, newKeys)
 	if err != nil {
@@ -580,10 +600,13 @@ func c20Run(t *testing.T, st *vstat.Stats, p c20Plan) *viol {
 		obs.Viol.Key = "reinit-accepts-forged-message-from-log"
 	}
 	if obs.Viol != nil {
-		obs.Viol.What = fmt.Sprintf("n=%d t=%d adapt014=%v recorded=%v batches=%d junk=%d aborted-attempt=%d: %s", p.N, p.T, p.Adapt014, p.Recorded, p.Batches, p.Junk, p.Aborted, obs.Viol.What)
+		obs.Viol.What = fmt.Sprintf("n=%d t=%d adapt014=%v recorded=%v batches=%d junk=%d aborted-attempt=%d only-these-ran-0.1.4=%b: %s", p.N, p.T, p.Adapt014, p.Recorded, p.Batches, p.Junk, p.Aborted, p.Old014%(1<<uint(p.N)), obs.Viol.What)
 		return obs.Viol
 	}
 	st.Class(fmt.Sprintf("adapt014=%v", p.Adapt014 || p.Recorded))
+	if p.Adapt014 && !p.Recorded && p.Old014%(1<<uint(p.N)) != 0 {
+		st.Class("dump-of-a-partly-upgraded-ceremony")
+	}
 	if p.DupInit && !p.Recorded {
 		st.Class("log-with-redelivered-opening-proposal")
 	}
@@ -600,7 +623,7 @@ func c20Run(t *testing.T, st *vstat.Stats, p c20Plan) *viol {
 		st.Class("recorded-0.1.4-log")
 	}
 	if len(p.Tape) > 0 || p.Junk > 0 || p.Batches > 0 || p.Recorded || p.Aborted > 0 {
-		st.NonTrivial(fmt.Sprintf("%d/%d/%v/%d/%d/%v/%v/%d", p.N, p.T, p.Tape, p.Batches, p.Junk, p.Adapt014, p.Recorded, p.Aborted))
+		st.NonTrivial(fmt.Sprintf("%d/%d/%v/%d/%d/%v/%v/%d", p.N, p.T, p.Tape, p.Batches, p.Junk, p.Adapt014, p.Recorded, p.Aborted*100+p.Old014))
 		st.SampleEvery(10, map[string]any{"n": p.N, "t": p.T, "tape_length": len(p.Tape), "later_batches_in_log": p.Batches, "junk_in_log": p.Junk, "adapted_from_0.1.4": p.Adapt014 || p.Recorded, "recorded_log": p.Recorded,
 			"outcome": "all nodes signing-idle, same polynomial and shares, hash equal on all nodes, batch signed afterwards verifies under the original group key"})
 	}
